@@ -39,6 +39,10 @@ def main():
                 for cnt in (0, 8, 12):
                     jobs.append(dict(harness='h_api_v2.cpp', ll=ll, entry='h_op', params=dict(base, count=cnt), models=['abs_v2_any_conc'], known=ck.known, must_reach=['call'], replay='none',
                                      allow_throw='none', eng_opts=eo, label=name, max_bugs=10))
+    try:
+        import api_v1
+        jobs += api_v1.jobs_c15(ck)
+    except ImportError: pass
     # kernels: 1.x encoders with 0..12 slots (fixed-size buffer), long labels; monitors only
     ll1 = driver.compile_ir('h_codec_v1.cpp'); driver.load_module(ll1)
     ck.native_spec = codec_jobs.NATIVE
